@@ -237,8 +237,10 @@ def oracle(problems, extra="ok"):
 # ----------------------------------------------------------------------------------------------------------- generators
 def rational_ts(rng, n):
     """n circle parameters covering all four quadrants, the axes, tiny and near-pi angles; as strings"""
+    # the tiny ones (angles 4e-4 … 5e-6, the far tail of a QFT or a small-dt Trotter step) sit between the library's
+    # operator-Schmidt cut-off 1e-6 and 1e-3: a long-range gate must keep its second MPO term there
     special = ["0", "1", "-1", "inf", "1/2", "-1/2", "2", "-2", "1/3", "3", "-3", "1/1000", "-1/1000", "1000", "7/10", "99/100",
-               "101/100", "1/7", "-5/3", "12/5"]
+               "101/100", "1/7", "-5/3", "12/5", "1/5000", "-1/20000", "1/100000", "1/400000"]
     out = list(special[:n])
     seen = set(out)
     while len(out) < n:
